@@ -537,9 +537,17 @@ package kafka
 //@   ghostdef pc.$authok == (result == nil && sess.$accepted)
 //@   ensures result == nil ==> pc.$authok
 //@   loop 0 invariant completed ==> sess.$accepted
+//@ property C18 C06 C17
+// The request loop of a Transport connection: the connection goes back to the idle pool only after an exchange that
+// completed (a response was read to its end; ErrNoRecord is such a completed exchange without records). After any other
+// failure - a response cut off, a timeout, a correlation mismatch - the loop ends and the deferred Close drops the
+// connection, so a later request can neither be written to it nor read what is left on it.
 //@ func (*conn).run
-//@   trusted the request loop of a transport connection (C06/C17 cover its body)
 //@   requires c.group.pool.sasl == nil || pc.$authok
+//@   option noframe
+//@   modifies heap
+//@   callsite (*connGroup).releaseConn requires err == nil || spec.is(err, asiface(protocol.ErrNoRecord, "protocol.Error"))
+//@ property C18
 //@ property C18 C12
 // C12: the version used on a connection is negotiated from the range the broker advertised for that API: the advertised
 // minimum and maximum are handed to SelectVersion in that order.
